@@ -66,6 +66,7 @@ var imports = map[string][]importSpec{
 		{"C16", `^C16\.T3$`, `TunnelSocket`, "a request leaves the socket as the bytes of that request"},
 	},
 	"C06": {
+		{"C19", `^C19\.produce-fresh$`, ``, "a value that is read and written back is its own instance: a datapoint obtained from the registry must not be the shared prototype, or decoding into another instance changes what is written back"},
 		{"C07", `^C07\.saturate$`, ``, "a saturation branch that also swallows the neighbouring code moves a value read from the bus by one step when it is written back"},
 		{"C07", `^C07\.f16$`, ``, "the two-octet float encoder must map every decodable value to its own code"},
 		{"C07", `^C07\.scale$`, ``, "encoder and decoder scale by inverse factors"},
@@ -81,6 +82,7 @@ var imports = map[string][]importSpec{
 		{"C04", `^C04\.R7$`, `pushInbound (immediate|overflow)`, "heartbeat ticker and responses are served by the loop that delivers inbound telegrams: that loop must never block on the application"},
 	},
 	"C10": {
+		{"C01", `^C01\.d$`, `serveTCPSocket|serveUDPSocket`, "every goroutine the tunnel started has exited after Close: the socket receiver makes progress on every round and ends on a read error"},
 		{"C09", `^C09\.H[27]\.timeout$`, ``, "Close joins the worker: every wait of the worker ends at the response timeout (a timer that is re-armed inside the wait loop never fires while replies keep arriving)"},
 		{"C03", `^C03\.S6\.timeout$`, ``, "Send returns within the response timeout, so Close is never held up by a sender"},
 	},
@@ -110,6 +112,7 @@ var imports = map[string][]importSpec{
 		{"C01", `^C01\.c$`, kRouterPath, "a delivered indication must not change afterwards"},
 	},
 	"C16": {
+		{"C01", `^C01\.d$`, `serveTCPSocket|serveUDPSocket`, "the receiver goroutine ends when the peer closes: no round of the receive loop leaves the stream where it was"},
 		{"C02", `^C02\.dispatch$`, `knx/knxnet\.`, "every well-formed frame is surfaced as the service it is"},
 		{"C01", `^C01\.e$`, `UnpackHeader accepts exactly`, "only well-formed frames are surfaced: a frame with a foreign header length or protocol version is dropped"},
 		{"C02", `^C02\.(layout|dispatch)$`, `^knxnet\.UnpackHeader|^knxnet\.Unpack `, "every frame is received through the header decoder and the service dispatcher"},
